@@ -9,9 +9,9 @@ namespace OllamaVerif.Prompt
 
 /-- The loop from the state it is in after the first (`continue`) iteration and after every
     successful iteration: next index to visit is `k-1`, and `n = k`. -/
-theorem scan_diag (cfg : Cfg) (cost : Nat → Nat) (msgs : List Msg) :
+theorem scan_diag (cfg : Cfg) (cost : Nat → Nat) (bad : Nat → Bool) (msgs : List Msg) :
     ∀ (k : Nat) (s : Option Nat) (q n' : Nat) (s' : Option Nat) (q' : Nat),
-      scan cfg cost msgs k k s q = .done n' s' q' →
+      scan cfg cost bad msgs k k s q = .done n' s' q' →
       n' ≤ k ∧ (∀ j, n' ≤ j → j < k → fits cfg cost msgs j = true) ∧
       (n' = 0 ∨ fits cfg cost msgs (n' - 1) = false) ∧
       (0 < k → s' = some (n' - 1)) ∧ (k = 0 → s' = s) := by
@@ -31,6 +31,8 @@ theorem scan_diag (cfg : Cfg) (cost : Nat → Nat) (msgs : List Msg) :
     · cases h
     · have hne : ¬ (k = k + 1) := by omega
       simp only [hne, if_false] at h
+      split at h
+      · cases h
       split at h
       · rename_i hfit
         obtain ⟨h1, h2, h3, h4, h5⟩ := ih (some k) (q+1) n' s' q' h
@@ -54,9 +56,9 @@ theorem scan_diag (cfg : Cfg) (cost : Nat → Nat) (msgs : List Msg) :
         simpa using hfit
 
 /-- number of tokenizer calls made by the loop in the diagonal state -/
-theorem scan_diag_evals (cfg : Cfg) (cost : Nat → Nat) (msgs : List Msg) :
+theorem scan_diag_evals (cfg : Cfg) (cost : Nat → Nat) (bad : Nat → Bool) (msgs : List Msg) :
     ∀ (k : Nat) (s : Option Nat) (q n' : Nat) (s' : Option Nat) (q' : Nat),
-      scan cfg cost msgs k k s q = .done n' s' q' →
+      scan cfg cost bad msgs k k s q = .done n' s' q' →
       q' = q + (k - n') + (if n' = 0 then 0 else 1) := by
   intro k
   induction k with
@@ -74,7 +76,9 @@ theorem scan_diag_evals (cfg : Cfg) (cost : Nat → Nat) (msgs : List Msg) :
     · have hne : ¬ (k = k + 1) := by omega
       simp only [hne, if_false] at h
       split at h
-      · have hd' := scan_diag cfg cost msgs k (some k) (q+1) n' s' q' h
+      · cases h
+      split at h
+      · have hd' := scan_diag cfg cost bad msgs k (some k) (q+1) n' s' q' h
         have := ih (some k) (q+1) n' s' q' h
         rw [this]
         obtain ⟨h1, _, _, _, _⟩ := hd'
@@ -84,10 +88,10 @@ theorem scan_diag_evals (cfg : Cfg) (cost : Nat → Nat) (msgs : List Msg) :
         simp
 
 /-- the loop as chatPrompt starts it on a non-empty conversation of length `k+1` -/
-theorem scan_start (cfg : Cfg) (cost : Nat → Nat) (msgs : List Msg) (k n' : Nat)
+theorem scan_start (cfg : Cfg) (cost : Nat → Nat) (bad : Nat → Bool) (msgs : List Msg) (k n' : Nat)
     (s' : Option Nat) (q' : Nat)
-    (h : scan cfg cost msgs (k+1) k none 0 = .done n' s' q') :
-    scan cfg cost msgs k k none 0 = .done n' s' q' := by
+    (h : scan cfg cost bad msgs (k+1) k none 0 = .done n' s' q') :
+    scan cfg cost bad msgs k k none 0 = .done n' s' q' := by
   unfold scan at h
   split at h
   · cases h
